@@ -952,6 +952,8 @@ class Builtins:
         I = self.I
         name = f.name
         recv = f.recv
+        if name == "$subclasses":
+            return ListV(list(recv.items))      # type: ignore[union-attr]
         # methods of builtin values
         if name.startswith("$"):
             tname, meth = name[1:].split(".", 1)
